@@ -123,6 +123,10 @@ def perturbations(rng, m):
                     nv = ("int", v[1] + 1)
                 elif v[0] == "d":
                     nv = ("d", v[1], v[2], v[3] % 28 + 1)
+                elif v[0] == "dt" and isinstance(v[7], str) and v[7].startswith("zone:") and rng.randrange(2):
+                    # the same instant written in UTC: another value (other wall time, other zone), though datetime equality alone would not tell
+                    u = vals.py(v).astimezone(vals.tzinfo_for("UTC"))
+                    nv = ("dt", u.year, u.month, u.day, u.hour, u.minute, u.second, "UTC")
                 elif v[0] == "dt":
                     nv = v[:6] + ((v[6] + 1) % 60,) + v[7:]
                 elif v[0] == "td":
